@@ -220,26 +220,42 @@ def run_native(replay_bin, scenarios, timeout=600):
     return res
 
 
-def normalize_line(l):
-    """panic / internal error messages contain Debug renderings which the model does not reproduce exactly:
-    compare the error class and the fixed part of the message only"""
+DBG_MARK = '{:?}'
+
+
+def _split_res(l):
     f = l.split('\t')
     if len(f) > 3 and f[0] == 'E':
-        r = f[3]
-        if r.startswith('panic:'):
-            f[3] = 'panic:' + r[6:46]
-        elif r.startswith('err:InternalError:'):
-            f[3] = r[:18 + 22]
-    return '\t'.join(f)
+        return f, f[3]
+    return f, None
 
 
 def diff_traces(a, b):
-    """first differing line (index, a, b) or None"""
-    na = [normalize_line(x) for x in a]
-    nb = [normalize_line(x) for x in b]
-    for i in range(max(len(na), len(nb))):
-        x = na[i] if i < len(na) else None
-        y = nb[i] if i < len(nb) else None
-        if x != y:
+    """a: mirsym trace, b: native trace.  First differing line (index, a, b) or None.
+    Panic / internal-error messages embed Debug renderings that the model marks with DBG_MARK instead of
+    reproducing: such messages are compared up to the first marker only."""
+    for i in range(max(len(a), len(b))):
+        x = a[i] if i < len(a) else None
+        y = b[i] if i < len(b) else None
+        if x == y:
+            continue
+        if x is None or y is None:
             return (i, x, y)
+        fx, rx = _split_res(x)
+        fy, ry = _split_res(y)
+        if rx is not None and ry is not None and rx.startswith(('panic:', 'err:InternalError:')):
+            k = rx.find(DBG_MARK)
+            if k >= 0:
+                rx2, ry2 = rx[:k], ry[:k]
+            else:
+                rx2, ry2 = rx, ry
+            # rust's assert! message has the source text; MIR has the same text but line breaks may differ
+            if rx.startswith('panic:'):
+                rx2 = ' '.join(rx2.replace('\\n', ' ').split())[:60]
+                ry2 = ' '.join(ry2.replace('\\n', ' ').split())[:60]
+            fx[3] = rx2
+            fy[3] = ry2
+            if fx == fy:
+                continue
+        return (i, x, y)
     return None
